@@ -7,6 +7,7 @@ and `from time import time` are the same callee).
 from __future__ import annotations
 
 import ast
+import os
 from dataclasses import dataclass
 
 from .model import ClassInfo, ModuleInfo, Program
@@ -157,6 +158,46 @@ def _with_imports(m: ModuleInfo, extra: dict) -> ModuleInfo:
     m2 = ModuleInfo(m.name, m.path, m.tree, m.source, m.is_package, m.future_annotations, dict(m.imports), m.classes, m.functions, m.assigns, m.all)
     m2.imports.update(extra)
     return m2
+
+
+CONTROL_SOURCE = """
+import time
+from datetime import datetime
+
+from jax import random as jr
+
+
+class Control:
+    def stamp(self):
+        return datetime.now().strftime("%H")
+
+    def wait(self, dt):
+        time.sleep(dt)
+
+    def fixed_key(self):
+        return jr.key(0)
+
+    def remember(self, value):
+        self.value = value
+"""
+
+
+def positive_control(prog: Program) -> list[Hit]:
+    """The matcher run over a fixed sample that commits each kind of ambient effect once (wall clock, sleep, constant key, attribute
+    assignment): what it reports shows the matcher is armed, independently of where the repository keeps such code."""
+    tree = ast.parse(CONTROL_SOURCE)
+    m = ModuleInfo("lerax._control", os.path.join(prog.src_root, "lerax", "_control.py"), tree, CONTROL_SOURCE, False)
+    m.imports.update({"time": "time", "datetime": "datetime.datetime", "jr": "jax.random"})
+    hits = []
+    for fn in tree.body[-1].body:
+        hits += scan_function(prog, m, f"lerax._control.Control.{fn.name}", fn)
+    return hits
+
+
+def control_armed(hits) -> tuple[bool, list[str]]:
+    names = sorted({h.what.split("(")[0] for h in hits if h.kind in ("forbidden-callee", "constant-key")})
+    ok = {"time.sleep", "datetime.datetime.now"} <= set(names) and any(h.kind == "constant-key" for h in hits) and any(h.kind == "attribute-assignment" for h in hits)
+    return ok, names
 
 
 def module_level_state(prog: Program, m: ModuleInfo) -> list[Hit]:
